@@ -14,6 +14,21 @@ import z3
 from .engine import B, EnumIter, I, Signal, SSeq, Unsupported, ZipIter, forall, fresh, in_range, is_sym, to_z3, zbool
 
 
+NAN_R = z3.Real("NaN")  # pointwise real-valued code: NaN is a distinguished, otherwise unconstrained constant
+SQRT = z3.Function("sqrt", z3.RealSort(), z3.RealSort())
+
+
+def coerce(a, b):
+    """Make two arithmetic terms agree in sort (Int -> Real when mixed)."""
+    a, b = to_z3(a), to_z3(b)
+    if z3.is_arith(a) and z3.is_arith(b) and a.sort() != b.sort():
+        if a.sort() == z3.IntSort():
+            a = z3.ToReal(a)
+        if b.sort() == z3.IntSort():
+            b = z3.ToReal(b)
+    return a, b
+
+
 class ModRef:
     def __init__(self, path):
         self.path = path
@@ -269,6 +284,8 @@ class Prims:
             return b.map(lambda y: f(to_z3(a), y), B)
         if is_sym(a) or is_sym(b):
             a_, b_ = to_z3(a) if not isinstance(a, str) else a, to_z3(b) if not isinstance(b, str) else b
+            if z3.is_arith(a_) and z3.is_arith(b_):
+                a_, b_ = coerce(a_, b_)
             return {ast.Eq: lambda: a_ == b_, ast.NotEq: lambda: a_ != b_, ast.Lt: lambda: a_ < b_, ast.LtE: lambda: a_ <= b_, ast.Gt: lambda: a_ > b_, ast.GtE: lambda: a_ >= b_}[type(op)]()
         import operator as o
 
@@ -310,9 +327,22 @@ class Prims:
                 return seq_concat(seq_of(a, b.kind), b)
             return b.map(lambda y: f(to_z3(a), y))
         if is_sym(a) or is_sym(b):
+            if isinstance(op, ast.Pow):
+                if isinstance(b, int) and not is_sym(b) and 0 <= b <= 4:
+                    out = to_z3(1)
+                    for _ in range(b):
+                        out = out * to_z3(a) if not (isinstance(out, z3.IntNumRef) and out.as_long() == 1) else to_z3(a)
+                    return out
+                raise Unsupported("power with a symbolic or large exponent")
+            if isinstance(op, ast.Div):
+                x, y = coerce(a, b)
+                if x.sort() == z3.IntSort():
+                    x, y = z3.ToReal(x), z3.ToReal(y)
+                return x / y  # real division; numpy's division by zero gives inf/nan: the contract must guard the use
             if isinstance(op, (ast.FloorDiv, ast.Mod)):
                 ex.oblige(st, to_z3(b) != 0, ex._name("divzero", node), f"line {node.lineno}: divisor is not zero")
-            return self.arith(op)(to_z3(a), to_z3(b))
+            x, y = coerce(a, b)
+            return self.arith(op)(x, y)
         import operator as o
 
         table = {ast.Add: o.add, ast.Sub: o.sub, ast.Mult: o.mul, ast.FloorDiv: o.floordiv, ast.Mod: o.mod, ast.Pow: o.pow, ast.Div: o.truediv, ast.BitOr: o.or_, ast.BitAnd: o.and_}
@@ -342,6 +372,8 @@ class Prims:
 
     def getattr(self, ex, st, base, attr, node):
         if isinstance(base, ModRef):
+            if base.path == "numpy" and attr == "nan":
+                return NAN_R
             return ModRef(base.path + "." + attr)
         if isinstance(base, SSeq):
             if attr == "size":
@@ -641,6 +673,8 @@ class Prims:
         R("numpy.all", lambda ex, st, a, k, n: self.method(ex, st, a[0], "all", [], {}, n))
         R("numpy.median", self.m_opaque_int("numpy.median"))
         R("math.prod", self.m_prod)
+        R("numpy.sqrt", lambda ex, st, a, k, n: SQRT(coerce(a[0], z3.RealVal(0))[0]))
+        R("numpy.errstate", lambda ex, st, a, k, n: None)
         R("math.ceil", lambda ex, st, a, k, n: a[0] if isinstance(a[0], int) else math.ceil(a[0]) if not is_sym(a[0]) else a[0])
         R("numpy_groupies.aggregate_numpy.aggregate", self.m_npg_aggregate)
 
